@@ -190,7 +190,7 @@ def _segs(mo):
 
 class C01(CoreCheck):
     pid = "C01"
-    codes = [(100, 200)]
+    codes = [(100, 200), (1101, 1103), (1801, 1802)]
     profiles = ["fd", "mixed", "event", "task", "timer"]
     coq_extra = ["theories/Core/CoreInv.vo", "theories/Core/CoreRel.vo"]
     rule = ("seeded scenarios over all object kinds with several objects due in one iteration and handler scripts that unregister/free "
@@ -223,7 +223,7 @@ class C02(CoreCheck):
 
 class C03(CoreCheck):
     pid = "C03"
-    codes = [(300, 400), (101, 102)]
+    codes = [(300, 400), (101, 102), (1101, 1103)]
     profiles = ["fd", "fd", "mixed"]
     rule = ("multi-iteration readiness patterns (ready in one iteration, not the next), struct reuse after unregister, cookie changes, "
             "handler changes; non-trivial = >= 2 descriptor callbacks; distinct = distinct scenario text")
@@ -234,7 +234,7 @@ class C03(CoreCheck):
 
 class C04(CoreCheck):
     pid = "C04"
-    codes = [(400, 500), (102, 103)]
+    codes = [(400, 500), (102, 103), (1103, 1104)]
     profiles = ["timer", "timer", "mixed"]
     standing = 0.5
     rule = ("past/zero/equal/far expiries x descriptor wake-ups that make the same deadline recur (kernel-timer path engages after 5) x "
@@ -248,7 +248,7 @@ class C04(CoreCheck):
 
 class C06(CoreCheck):
     pid = "C06"
-    codes = [(600, 700), (103, 104)]
+    codes = [(600, 700), (103, 104), (1101, 1103)]
     profiles = ["task", "task", "mixed"]
     rule = ("tasks registering self / each other / fresh / already-run tasks from task, descriptor, timer and event handlers with ready "
             "descriptors and due timers present; non-trivial = >= 2 task callbacks; distinct = distinct scenario text")
@@ -259,7 +259,7 @@ class C06(CoreCheck):
 
 class C07(CoreCheck):
     pid = "C07"
-    codes = [(700, 800)]
+    codes = [(700, 800), (1101, 1104)]
     profiles = ["quit", "quit", "mixed", "event"]
     with_faults = 0.35
     rule = ("programs over all object kinds with iv_quit anywhere, failing iv_fd_register_try (closed descriptor) and failing "
@@ -284,6 +284,26 @@ class C09(CoreCheck):
     def nontrivial(self, case, mo):
         return self.count(mo, r"\| Cr") >= 1
 
+    def gen_cases(self, ctx, rng, n):
+        cases = CoreCheck.gen_cases(self, ctx, rng, n)
+        # a raw event re-posted from inside its own handler (after the read) and bursts from outside,
+        # with nothing else keeping the loop awake
+        for _ in range(n // 4):
+            be = rng.choice(self.backends)
+            fl = rng.choice([None, None, ["noeventfd2"], ["noeventfd"], ["eintr@2"]])
+            k = rng.randint(1, 4)
+            lists = ["rp0" if i < k else rng.choice(["-", "ru0", "rp1"]) for i in range(k + 1)]
+            secs = ["B" + be] + (["X" + ",".join(fl)] if fl else []) + ["M%d" % rng.choice([8, 12])]
+            secs.append("S rr0 rr1 " + rng.choice(["rp0", "rp0 rp0 rp0", "rp1 rp0"]) + rng.choice(["", " tr0+5000000"]))
+            secs.append("Hr0:" + "/".join(lists))
+            secs.append("Hr1:" + rng.choice(["-", "rp0", "ru1", "rp0 ru1"]))
+            secs.append("Ht0:" + rng.choice(["rp0", "rp1", "-"]))
+            for w in range(2, 6):
+                if rng.random() < 0.4:
+                    secs.append("W%d:%s" % (w, " ".join(["rp%d" % rng.randint(0, 1)] * rng.choice([1, 3, 70]))[:120]))
+            cases.append(";".join(secs))
+        return cases
+
 
 class C18(CoreCheck):
     pid = "C18"
@@ -299,7 +319,7 @@ class C18(CoreCheck):
 
 class C15(CoreCheck):
     pid = "C15"
-    codes = [(1500, 1600), (100, 1000), (1800, 1900)]
+    codes = [(1500, 1600), (100, 1200), (1800, 1900)]
     profiles = ["mixed", "fd", "timer", "event"]
     with_faults = 0.8
     rule = ("the C01-C09 scenario programs x 4 poll methods x EINTR on the k-th wait / k-th epoll_ctl x each optional system call failing "
